@@ -321,6 +321,22 @@ func runC10Interop(sc *IopScript) *sim.Outcome {
 			} else {
 				return o.Fail("C10/interop-smp-ask", "otr3 did not ask for the secret after the reference's SMP1")
 			}
+		case "refresh":
+			// a new key exchange inside the running session, started by either side: the session id, the keys and the
+			// SMP secret derived from them are those of the new exchange
+			if !m.R.Encrypted || !m.A.C.IsEncrypted() {
+				continue
+			}
+			m.Settle(onA, onR)
+			old := m.A.C.GetSSID()
+			sim.Age(m.A.C, 3*60e9)
+			if !m.Establish(op.X & 1) {
+				return o.Fail("C10/interop-ake", "a key exchange inside a running session did not complete (started by %d)", op.X&1)
+			}
+			if got := m.A.C.GetSSID(); got != m.R.SSID {
+				return o.Fail("C10/interop-ssid", "after a key exchange inside a running session otr3 reports SSID %x, the reference derives %x (before the exchange: %x)", got, m.R.SSID, old)
+			}
+			o.Class("refresh-while-encrypted")
 		case "endr":
 			// the reference ends the session with an unpadded disconnect TLV; otr3 must notice
 			if !m.R.Encrypted || !m.A.C.IsEncrypted() {
@@ -471,7 +487,7 @@ func init() { reg("C10interop", runC10Interop) }
 
 func TestProp_C10_Interop(t *testing.T) {
 	defer sim.MarkCompleted("C10interop", false)
-	kinds := []string{"os", "os", "os", "rs", "rs", "rs", "do", "do", "dr", "dr", "settle", "settle", "smpo", "smpr", "xko", "xkr", "endr", "endo", "abortr"}
+	kinds := []string{"os", "os", "os", "rs", "rs", "rs", "do", "do", "dr", "dr", "settle", "settle", "smpo", "smpr", "xko", "xkr", "endr", "endo", "abortr", "refresh", "refresh"}
 	rapid.Check(t, func(rt *rapid.T) {
 		sc := &IopScript{Cfg: genSessCfg(rt)}
 		if rapid.IntRange(0, 2).Draw(rt, "tagstart") == 0 {
@@ -491,7 +507,7 @@ func TestProp_C10_Interop(t *testing.T) {
 			case "smpo", "smpr":
 				op.X = rapid.IntRange(0, 15).Draw(rt, "x")
 				op.S = rapid.SampledFrom([]string{"", "", "who?", "ünï"}).Draw(rt, "q")
-			case "endr", "endo":
+			case "endr", "endo", "refresh":
 				op.X = rapid.IntRange(0, 1).Draw(rt, "starter")
 			case "xko", "xkr":
 				op.X = rapid.IntRange(0, 1<<20).Draw(rt, "x")
